@@ -89,6 +89,17 @@ theorem resume_iterated (c : Coll) (sp : Spec) (s : Disk) (L : List Write)
   rw [run_complete sp hi (agrees_create s 0) hL, hst]
   exact (clean_any_order c sp _ (isLin_seqLog c [])).2.symm
 
+/-- non-vacuity of the `Reach` hypotheses: two kills in a row (the second one during the resume,
+right after the re-issued first hash write), then the run that finishes -/
+def exTwice : Disk :=
+  crashAt exCrash (seqLog exColl (loadProcessed exCrash true 0) ++ metaLog exColl .fs) 1
+example : Reach exColl .fs Disk.empty exTwice :=
+  Reach.round 1 (Reach.round 2 Reach.start (by intro d; simp [Disk.procSet, Disk.empty]) (isLin_seqLog exColl []))
+    (agrees_create _ 0) (isLin_seqLog exColl _)
+example : exTwice.hashes = [(1, 0), (2, 0)] ∧ exTwice.processed = none ∧
+    (run exTwice (seqLog exColl (loadProcessed exTwice true 0) ++ metaLog exColl .fs)).hashes
+      = [(1, 0), (2, 0), (2, 1)] := by decide
+
 /-- a completed index is a fixed point of the build: running `create` again writes nothing new -/
 theorem rerun_complete (c : Coll) (sp : Spec) (L : List Write)
     (hL : IsLin c (loadProcessed (cleanBuild c sp) true 0) L) :
